@@ -97,6 +97,15 @@ def structural_guard(rep, repo, n0):
     outside the evaluator (a vectorised or otherwise restructured block) a template mismatch says nothing about the behaviour: the findings
     the templates added are withdrawn and the run ends undecided (exit 2). Templates that all match still decide (the block has the known shape)."""
     if getattr(repo, '_mapeval_outside', False) and len(rep.violations) > n0:
+        # the templates apply when their anchors are there: both passes read the four operand columns through the stem substitution, per op
+        try:
+            _, init = simops.simops_init(repo)
+            P = simops.Passes(init)
+            shape = all(sorted(c for c, _ in P.operand_names(loop)[0].values()) == [2, 3, 4, 5] for loop in (P.level_loop, P.alloc_op_loop))
+        except (ModelError, AnchorError):
+            shape = False
+        if shape:
+            return
         first = rep.violations[n0]
         del rep.violations[n0:]
         raise ModelError(f'schedule / memory-map block of SimOps.__init__ is outside the evaluated subset ({repo._mapeval_why}) and does not have the per-op shape '
